@@ -12,7 +12,7 @@ pub fn prop() -> Prop {
     Prop {
         id: "C03",
         level: "model_checking",
-        rule: "configurations = set(2) x split(3, one reading a --set variable) x filter(3, one a --set macro) x select(4, one reading a previously selected name) x unique(2) x sort(5: none, 1 key both directions, 2 keys, a selected name) x skip(3) x take(3) x {none, --group-by, --merge, --group-by on a selected name} x only-objects-and-arrays(2) = 51 840 (quick: the 17 280 with --set given and a filter); inputs = all sequences of <=2 (thorough <=3) values over 8 records (ties, absent and non-string keys, empty and missing arrays, a scalar, an array, integers that differ only beyond 2^53) and cyclic repetitions to 17 and 40 rows for every 13th configuration; every configuration is also run with its option groups reversed and rotated (relative order of repeated --select/--sort-by kept), and every 211th with all permutations of its option groups; and with each of --regular-expression-cache-size, --on-error=stderr/panic/stdout added at a varying position (nothing may change on a clean input); non-trivial = at least two stages are active and something is printed; distinct by construction; plus, for 10 configurations whose stage expressions read the position of a record (&index, &index-in-file) or not, every sequence of <=4 values over 2 records, an array and 3 scalars with --only-objects-and-arrays against the same sequence without its scalars; every configuration is also run in 6 other documented spellings of its command line (two of them mixing the spellings within one command line; second long names such as --choose/--where/--break-by/--combine/--order-by/--limit, short options, value as a separate word or attached)",
+        rule: "configurations = set(2) x split(3, one reading a --set variable) x filter(3, one a --set macro) x select(4, one reading a previously selected name) x unique(2) x sort(5: none, 1 key both directions, 2 keys, a selected name) x skip(3) x take(3) x {none, --group-by, --merge, --group-by on a selected name} x only-objects-and-arrays(2) = 51 840 (quick: the 17 280 with --set given and a filter); inputs = all sequences of <=2 (thorough <=3) values over 8 records (ties, absent and non-string keys, empty and missing arrays, a scalar, an array, integers that differ only beyond 2^53) and cyclic repetitions to 17 and 40 rows for every 13th configuration; every configuration is also run with its option groups reversed and rotated (relative order of repeated --select/--sort-by kept), and every 211th with all permutations of its option groups; and with each of --regular-expression-cache-size, --on-error=stderr/panic/stdout added at a varying position (nothing may change on a clean input); non-trivial = at least two stages are active and something is printed; distinct by construction; plus, for 10 configurations whose stage expressions read the position of a record (&index, &index-in-file) or not, every sequence of <=4 values over 2 records, an array and 3 scalars with --only-objects-and-arrays against the same sequence without its scalars; every configuration is also run in 7 other documented spellings of its command line, one per case in rotation and all of them on a third of the longest inputs (three of them mixing the spellings within one command line; second long names such as --choose/--where/--break-by/--combine/--order-by/--limit, short options, value as a separate word or attached)",
         explanation: "stdout rows are compared with the reference pipeline (pure list transformations in the documented order); argument orders are compared byte for byte with the canonical order",
         assumptions: COMMON_ASSUMPTIONS.to_vec(),
         guards: vec!["command-line-respelled", "scalars-removed-before-position-dependent-stages", "irrelevant-option-added", "limiter-before-grouper", "two-sort-keys-with-take", "split-reads-set-variable", "sort-by-selected-name", "all-group-permutations", "scalar-removed-by-only-objects-and-arrays", "unique-removed-a-row", "group-by-selected-name"],
@@ -101,7 +101,7 @@ fn groups_of(args: &[String]) -> Vec<Vec<String>> {
     g.into_iter().map(|(_, v)| v).collect()
 }
 
-fn check(ctx: &mut Ctx, cfg: &Config, ix: &[usize], inputs: &[V], orders: bool, all_perms: bool) {
+fn check(ctx: &mut Ctx, cfg: &Config, ix: &[usize], inputs: &[V], orders: bool, all_perms: bool, rot: usize) {
     let case = pipe::case_for(cfg, inputs);
     let sig = pipe::shape(cfg);
     let (obs, out) = pipe::run_rows(ctx, &case, &sig);
@@ -151,6 +151,23 @@ fn check(ctx: &mut Ctx, cfg: &Config, ix: &[usize], inputs: &[V], orders: bool, 
         }
     }
     ctx.sample(|| serde_json::json!({"args": case.args, "input": String::from_utf8_lossy(&pipeline::input_text(inputs)), "stdout": obs.out_str()}));
+    // the documented spellings of the same command line, one per case in rotation (all of them when `orders`)
+    {
+        let variants: Vec<usize> = if orders { (1..=7).collect() } else { vec![1 + rot % 7] };
+        for variant in variants {
+            let a = pipe::respell(&case.args, variant);
+            if a == case.args {
+                continue;
+            }
+            let c2 = Case::owned(a, pipeline::input_text(inputs));
+            let o2 = ctx.run(&c2);
+            ctx.case_done();
+            ctx.guard("command-line-respelled");
+            if o2.res != obs.res || o2.stdout != obs.stdout || o2.stderr != obs.stderr {
+                ctx.violation("output-depends-on-the-spelling-of-the-options", &format!("{sig} spelling#{variant}"), &[c2.clone(), case.clone()], obs.brief(), o2.brief());
+            }
+        }
+    }
     if !orders && !all_perms {
         return;
     }
@@ -170,21 +187,6 @@ fn check(ctx: &mut Ctx, cfg: &Config, ix: &[usize], inputs: &[V], orders: bool, 
     }
     // ... nor may the documented spellings of the same command line: second long names, short options, the value as
     // a separate word or attached to the short option
-    if orders {
-        for variant in 1..=6usize {
-            let a = pipe::respell(&case.args, variant);
-            if a == case.args {
-                continue;
-            }
-            let c2 = Case::owned(a, pipeline::input_text(inputs));
-            let o2 = ctx.run(&c2);
-            ctx.case_done();
-            ctx.guard("command-line-respelled");
-            if o2.res != obs.res || o2.stdout != obs.stdout || o2.stderr != obs.stderr {
-                ctx.violation("output-depends-on-the-spelling-of-the-options", &format!("{sig} spelling#{variant}"), &[c2.clone(), case.clone()], obs.brief(), o2.brief());
-            }
-        }
-    }
     // the result does not depend on the order of the options
     let groups = groups_of(&case.args);
     let n = groups.len();
@@ -252,11 +254,11 @@ fn run(ctx: &mut Ctx) {
         for (k, inp) in inputs.iter().enumerate() {
             // argument orders on every configuration, for the inputs of maximal length (and the empty one)
             let orders = inp.len() == maxlen && (k % 3 == 0) || inp.is_empty();
-            check(ctx, &cfg, ix, inp, orders, all_perms && inp.len() == 2 && k % 5 == 0);
+            check(ctx, &cfg, ix, inp, orders, all_perms && inp.len() == 2 && k % 5 == 0, n + k);
         }
         if n % 13 == 0 {
             for inp in &long_inputs {
-                check(ctx, &cfg, ix, inp, false, false);
+                check(ctx, &cfg, ix, inp, false, false, n);
             }
         }
         if ctx.time_up() {
